@@ -104,7 +104,7 @@ class Scenario:
                     return
                 for e in self.out[u]:
                     ev = e["ev"]
-                    if ev.get("op") in ("add", "addtag", "rmtag") and ev.get("id") in related:
+                    if (ev.get("op") in ("add", "addtag", "rmtag") and ev.get("id") in related) or ev.get("op") == "snapshot":
                         path.append(e)
                         rec(e["_to"], path)
                         path.pop()
